@@ -188,7 +188,10 @@ class ApiGen:
             feat = r.choice([0, 0, 0, self.mask, r.randrange(8), r.randrange(8) | (r.randrange(2 ** 29) << 3)])
         if t is None and r.random() < 0.7:
             t = r.choice([EPOCH + r.randrange(1024 * STEP), EPOCH + r.randrange(1024) * STEP, EPOCH + r.randrange(1, 1025) * STEP - 1,
-                          EPOCH - 1, 0, 2 ** 64 - 1, 2 ** 32 + 5, EPOCH + 1024 * STEP + r.randrange(10 ** 9)])
+                          EPOCH - 1, 0, 2 ** 64 - 1, 2 ** 32 + 5, EPOCH + 1024 * STEP + r.randrange(10 ** 9),
+                          # word-size boundaries of the clock value (a 32-bit time_t, the sign bit, all-ones in one half)
+                          r.choice([2 ** 31 - 1, 2 ** 31, 2 ** 32 - 1, 2 ** 32, 2 ** 32 + 1, 2 ** 33 - 1, (r.randrange(1, 2 ** 31) << 32) | 0xFFFFFFFF,
+                                    r.randrange(2 ** 32) << 32, 2 ** 63 - 1, 2 ** 63, 2 ** 64 - 2, (2 ** 32 - 1) << 32])])
         if rand is None and r.random() < 0.7:
             rand = bytes(r.choice([[r.randrange(256) for _ in range(19)], [255] * 19, [0] * 19,
                                    [0] * 18 + [r.choice([0x40, 0x80, 0xC0, 0x3F, 0xFF])], [r.randrange(256) for _ in range(18)] + [r.choice([0xC0, 0xFF, 0x7F])]]))
@@ -1099,12 +1102,28 @@ class ApiGen:
         if r.random() < 0.7:
             self.inject()
 
+    def probe_clocks(self):
+        """C11/C18: one creation at every word-size boundary of the clock value and at month boundaries"""
+        r = self.rnd
+        ts = [0, 1, EPOCH - 1, EPOCH, EPOCH + 1, EPOCH + STEP - 1, EPOCH + STEP, EPOCH + 1023 * STEP, EPOCH + 1024 * STEP - 1, EPOCH + 1024 * STEP,
+              2 ** 31 - 1, 2 ** 31, 2 ** 32 - 1, 2 ** 32, 2 ** 32 + 1, 2 ** 33 - 1, 2 ** 33, (r.randrange(1, 2 ** 31) << 32) | 0xFFFFFFFF, (r.randrange(1, 2 ** 31) << 32),
+              0x2FFFFFFFF, 0xFFFFFFFF00000000, 2 ** 63 - 1, 2 ** 63, 2 ** 64 - 2, 2 ** 64 - 1,
+              EPOCH + r.randrange(1024) * STEP - 1, EPOCH + r.randrange(1024 * STEP)]
+        for t in ts:
+            k = self.create(feat=0, t=t)
+            if k is not None:
+                self.op('birthday %d' % k)
+                self.free(k)
+
     # ------------------------------------------------------------ driver
     def run(self, nops, weights):
         r = self.rnd
         self.inject()
         if r.random() < 0.5:
             self.features(r.choice([0, 1, 2, 4, 5, 7, 7, 0xFFFFFFFF, 8]))
+        weights = dict(weights)
+        if weights.pop('clocks', 0):
+            self.probe_clocks()
         names = list(weights)
         ws = [weights[n] for n in names]
         while len(self.s.ops) < nops and not self.s.crashed:
